@@ -38,7 +38,9 @@ pub fn root_pos(root: &str) -> Option<Pos> {
     }
 }
 
-pub fn run_script(steps: Vec<GStep>) {
+pub fn run_script(steps: Vec<GStep>, tags: Vec<String>) {
+    // `movestogo=N`: every clock `go` of this session also carries the token (the pinned engine ignores it)
+    let mtg: String = tags.iter().find_map(|t| t.strip_prefix("movestogo=")).map(|n| format!(" movestogo {}", n)).unwrap_or_default();
     let mut rec = GameRec { root: "startpos".into(), moves: vec![] };
     let mut readies: u64 = 0;
     let mut closed = false;
@@ -103,9 +105,9 @@ pub fn run_script(steps: Vec<GStep>) {
             GK::GoClock { own, own_inc, opp, opp_inc } => {
                 let white = rec.pos().map_or(true, |p| p.white_to_move());
                 let line = if white {
-                    format!("go wtime {} btime {} winc {} binc {}", own, opp, own_inc, opp_inc)
+                    format!("go wtime {} btime {} winc {} binc {}{}", own, opp, own_inc, opp_inc, mtg)
                 } else {
-                    format!("go wtime {} btime {} winc {} binc {}", opp, own, opp_inc, own_inc)
+                    format!("go wtime {} btime {} winc {} binc {}{}", opp, own, opp_inc, own_inc, mtg)
                 };
                 sched::gui_send(st.id, &line);
             }
